@@ -12,11 +12,17 @@ import sys
 import time
 
 VERIF = os.path.dirname(os.path.dirname(os.path.abspath(__file__)))
-REPO = "/repo"
+# The registered checks always work on /repo and write below /verif.  bin/selftest_par (the framework's own regression
+# over the seeded changes) runs several copies side by side: VERIF_REPO names a scratch worktree of the repository,
+# VERIF_WORK its build/work directory and VERIF_OUT where evidence and replay files of those runs go.
+REPO = os.environ.get("VERIF_REPO", "/repo")
 WORK = os.environ.get("VERIF_WORK", os.path.join(VERIF, ".work"))
+OUT = os.environ.get("VERIF_OUT", VERIF)
 SPEC = os.path.join(VERIF, "spec")
 MC = os.path.join(SPEC, "mc")
-HARNESS = os.path.join(VERIF, "harness")
+HARNESS_SRC = os.path.join(VERIF, "harness")
+# the harness crate depends on <repo>/core by path: for a scratch repository it is built from a copy whose path is rewritten
+HARNESS = HARNESS_SRC if REPO == "/repo" else os.path.join(WORK, "harness-src")
 CONFORM = os.path.join(HARNESS, "target", "debug", "sfs-conform")
 REPO_TARGET = os.path.join(WORK, "repo-target")
 SFS_BIN = os.path.join(REPO_TARGET, "debug", "sfs")
@@ -62,6 +68,16 @@ def build_q():
 
 
 def build_harness():
+    if HARNESS != HARNESS_SRC:
+        os.makedirs(HARNESS, exist_ok=True)
+        r = sh(["rsync", "-a", "--delete", "--exclude", "target", HARNESS_SRC + "/", HARNESS + "/"], timeout=300)
+        if r.returncode != 0:
+            raise ToolError("copying the harness failed:\n" + r.stdout.decode(errors="replace"))
+        toml = os.path.join(HARNESS, "Cargo.toml")
+        with open(toml) as f:
+            text = f.read()
+        with open(toml, "w") as f:
+            f.write(text.replace('path = "/repo/core"', 'path = "%s/core"' % REPO))
     lock = os.path.join(HARNESS, "Cargo.lock")
     if not os.path.exists(lock):
         import shutil
@@ -209,7 +225,7 @@ def tlc_must_violate(tag, module, cfg, expected, **kw):
 # ---------------------------------------------------------------------------------- harness
 
 def conform(args, timeout=3600, env=None):
-    e = {"SFS_BIN": SFS_BIN, "VERIF_SEED": str(seed()),
+    e = {"SFS_BIN": SFS_BIN, "VERIF_SEED": str(seed()), "VERIF_REPO": REPO,
          "CONFORM_WORK": os.path.join(WORK, "conform")}
     if env:
         e.update(env)
@@ -380,7 +396,7 @@ class Report:
             if f["fingerprint"] in seen:
                 continue
             seen.add(f["fingerprint"])
-            d = os.path.join(VERIF, "replays", self.pid)
+            d = os.path.join(OUT, "replays", self.pid)
             os.makedirs(d, exist_ok=True)
             body = {"property": self.pid, "family": f["family"], "fingerprint": f["fingerprint"],
                     "detail": f["detail"], "case": f.get("case")}
@@ -426,8 +442,8 @@ class Report:
             "wall_s": round(wall, 2),
             "violations": nviol,
         }
-        os.makedirs(os.path.join(VERIF, "evidence"), exist_ok=True)
-        with open(os.path.join(VERIF, "evidence", self.pid + ".json"), "w") as f:
+        os.makedirs(os.path.join(OUT, "evidence"), exist_ok=True)
+        with open(os.path.join(OUT, "evidence", self.pid + ".json"), "w") as f:
             json.dump(ev, f, indent=1)
 
 
